@@ -3,7 +3,7 @@
    satisfies the reader's premise reader_okb, hence loading it gives the canonical content of the CAS that was saved. *)
 From Coq Require Import Ascii ZifyBool.
 From Cassis Require Import Base Offsets OffsetsProofs.
-From Cassis Require Import Heap Schema Canon Lex LexProofs Reach ReachProofs ReachSpec XmiDoc Xmi XmiProofs XmiWf XmiDocOk XmiLoad XmiRt.
+From Cassis Require Import Heap Schema Canon Lex LexProofs Reach ReachProofs ReachSpec XmiDoc Xmi XmiProofs XmiWf XmiDocOk XmiResave XmiLoad XmiRt.
 From Cassis Require XmiLoadProofs XmiLoadProofs2.
 Open Scope Z_scope.
 
@@ -487,5 +487,17 @@ Proof.
     rewrite (denote_save_xmi_wf fmt_flt parse_flt flt_rt flt_tok s cb db cb' (proj1 (wf_inb_parts s cb WB)) SB). exact E.
   - exact (doc_ok_save_xmi fmt_flt parse_flt flt_rt flt_tok s ca da ca' WA SA).
   - exact (doc_ok_save_xmi fmt_flt parse_flt flt_rt flt_tok s cb db cb' WB SB).
+Qed.
+(* C01 xmi_resave_identical after a round trip: a well-formed CAS that carries the content of the loaded CAS is saved to the
+   elements of the document that was loaded (same elements, attributes and child elements in the same order; the order of
+   the elements in the document may differ) *)
+Theorem xmi_resave_after_load s c d c1 c2 cb db cb' :
+  wf_rtb s c = true -> save_xmi fmt_flt s c = Ok (d, c1) -> load_xmi parse_flt s false d = Ok c2 ->
+  wf_inb s cb = true -> (do x <- canon_xmi s cb ;; Ok (norm_xmi s x)) = canon_loaded s c2 ->
+  save_xmi fmt_flt s cb = Ok (db, cb') -> Permutation db d.
+Proof.
+  intros WR HS HL WB E SB. destruct (wf_rtb_parts s c WR) as (WI & _).
+  rewrite (xmi_roundtrip_load s c d c1 c2 WR HS HL) in E.
+  exact (xmi_resave_identical_eq fmt_flt parse_flt flt_rt flt_tok s cb c db d cb' c1 WB WI E SB HS).
 Qed.
 End Main.
